@@ -1054,6 +1054,34 @@ package bkl
 //@     invariant (= (str.++ (content buf) (tomlFrame codecTOML rest idx)) (tomlFrame codecTOML (ls vs) 0))
 //@     invariant (= (seqEncErr codecTOML rest idx) (seqEncErr codecTOML (ls vs) 0))
 //
+//@ func tomlUnmarshalStream(in) (res, err)
+//@   property C05
+//@   uses appNil, snocApp
+//@   ensures (= (isErr err) (tomlDecE (reSplit (rePat tomlRE) in (- 1))))                                    [C05]
+//@   ensures (=> (not (isErr err)) (= res (VList (tomlDecF (reSplit (rePat tomlRE) in (- 1))))))             [C05]
+//@   loop 1
+//@     invariant ((_ is VList) ret)
+//@     invariant (= (tomlDecE rest) (tomlDecE (reSplit (rePat tomlRE) in (- 1))))
+//@     invariant (= (app (ls ret) (tomlDecF rest)) (tomlDecF (reSplit (rePat tomlRE) in (- 1))))
+//
+//@ func yamlUnmarshalStream(in) (res, err)
+//@   property C05
+//@   uses appLen
+//@   ensures (=> (not (isErr err)) (= (llen (ls res)) (sllen (reSplit (rePat yamlRE) in (- 1)))))           [C05]
+//@   loop 1
+//@     invariant ((_ is VList) ret)
+//@     invariant (= (+ (llen (ls ret)) (sllen rest)) (sllen (reSplit (rePat yamlRE) in (- 1))))
+//
+//@ regexp tomlRE
+//@   property C05
+//@   lines tomlSepLine
+//@   accepts "---"
+//
+//@ regexp yamlRE
+//@   property C05
+//@   lines yamlSepLine
+//@   accepts "---"
+//
 //@ func jsonMarshalStream(vs) (res, err)
 //@   property C05
 //@   ensures (exists ((c Int)) (and (= (isErr err) (seqEncErr c (ls vs) 0)) (=> (not (isErr err)) (= res (jsonFrame c (ls vs) 0)))))   [C05]
